@@ -40,6 +40,7 @@ class Gen:
         self.routers, self.listeners, self.lazies = [], [], []
         self.ndefer = 0
         self.last_defer = None
+        self.body = None                            # names defined inside the loop body being generated
         self.k = 0
         self.dropped = set()
         self.coal = set()
@@ -53,10 +54,17 @@ class Gen:
 
     def S(self, allow_tainted=True):
         c = [s for s in self.streams if s not in self.dropped]
+        if self.body is not None and self.r.random() < 0.6:
+            # inside a loop body prefer what was defined in the body, so that the cycle really goes through the loop
+            b = [x for x in c if x in self.body]
+            if b: return self.r.choice(b)
         return self.r.choice(c) if c else None
 
     def C(self):
         c = [s for s in self.cells if s not in self.dropped]
+        if self.body is not None and self.r.random() < 0.6:
+            b = [x for x in c if x in self.body]
+            if b: return self.r.choice(b)
         return self.r.choice(c) if c else None
 
     def t(self, *ns):
@@ -167,16 +175,24 @@ class Gen:
             n = self.fresh("L"); L.append(f"sloop {n}"); self.add_stream(n, {n}); self.open_sloops.append(n)
         else:
             n = self.fresh("K"); L.append(f"cloop {n}"); self.add_cell(n, {n}); self.open_cloops.append(n)
+        if kind == "sloop" and self.r.random() < self.p.get("state_loops", 0.5) and self.S():
+            return self.gen_state_loop(n)
         w = self.p["weights"]; saved = (w["sloop"], w["cloop"], w["switchc"]); w["sloop"] = w["cloop"] = 0
         if self.p.get("no_switchc_in_loop"): w["switchc"] = 0
         made = 0
+        before = set(self.streams + self.cells)
+        self.body = {n}
         for _ in range(30):
             if made >= self.r.randint(2, 5): break
-            if self.gen_def(): made += 1
+            if self.gen_def():
+                made += 1
+                self.body |= set(self.streams + self.cells) - before
         w["sloop"], w["cloop"], w["switchc"] = saved
         pos_variation = self.r.random()
         if kind == "sloop":
             cands = [s for s in self.streams if n not in self.taint[s] and s not in self.dropped]
+            inbody = [s for s in cands if s in self.body]
+            if inbody and self.r.random() < 0.8: cands = inbody
             self.open_sloops.remove(n)
             if cands:
                 t = self.r.choice(cands); L.append(f"sloopclose {n} {t}")
@@ -185,6 +201,8 @@ class Gen:
                 self.retaint(n, set())
         else:
             cands = [c for c in self.cells if n not in self.taint[c] and c not in self.dropped]
+            inbody = [c for c in cands if c in self.body]
+            if inbody and self.r.random() < 0.8: cands = inbody
             self.open_cloops.remove(n)
             if cands:
                 t = self.r.choice(cands); L.append(f"cloopclose {n} {t}")
@@ -196,6 +214,34 @@ class Gen:
         if pos_variation < 0.3 and made:
             # loop_ position inside the defining transaction: move the close right after the target's definition
             pass
+        L.append("end")
+        self.body = None
+        return True
+
+    def gen_state_loop(self, n):
+        """the canonical use of a StreamLoop: state = hold(loop); next = f(source snapshot state) through a chain of
+        wrappers; loop_(next). Every wrapper primitive sits on a real reference cycle."""
+        r, L = self.r, self.lines
+        src = r.choice([s for s in self.streams if s not in self.dropped and s != n and not self.t(s)] or [None])
+        if src is None:
+            L.append(f"sloopclose {n} {n}x"); L.append("end"); self.open_sloops.remove(n); self.retaint(n, set()); return True
+        st = self.fresh("c"); L.append(f"hold {st} {n} {self.small()}"); self.add_cell(st, {n})
+        cur = self.fresh("s"); L.append(f"snapshot {cur} {src} {st} {self.op()}"); self.add_stream(cur, self.t(src))
+        for _ in range(r.randint(0, 3)):
+            k = r.choice(["map", "filter", "once", "gate", "orelse", "merge", "snapshot", "mapto"])
+            nx = self.fresh("s")
+            if k in ("map", "filter", "mapto"): L.append(f"{k} {nx} {cur} {self.small()}")
+            elif k == "once": L.append(f"once {nx} {cur}")
+            elif k == "gate": L.append(f"gate {nx} {cur} {st}")
+            elif k == "snapshot": L.append(f"snapshot {nx} {cur} {st} {self.op()}")
+            else:
+                other = r.choice([s for s in self.streams if s not in self.dropped and not self.t(s) and s != cur] or [src])
+                L.append(f"orelse {nx} {cur} {other}" if k == "orelse" else f"merge {nx} {cur} {other} {self.op()}")
+            self.add_stream(nx, set()); cur = nx
+        L.append(f"sloopclose {n} {cur}")
+        self.open_sloops.remove(n); self.retaint(n, set())
+        if r.random() < 0.5:
+            extra = self.fresh("c"); L.append(f"mapc {extra} {st} {self.small()}"); self.add_cell(extra, set())
         L.append("end")
         return True
 
@@ -299,6 +345,7 @@ class Gen:
                 if x in self.swc: self.swc.add(y)
         if r.random() < p["gcs"]: L.append("gc")
         if r.random() < p.get("memchecks", 0.0): L.append("memcheck")
+        if r.random() < p.get("wfchecks", 0.0): L.append("wfcheck")
         if r.random() < p["posts"] * 0.3 and self.cells: L.append(f"post {self.fresh('p')} {self.C()}")
 
     def malformed(self):
